@@ -23,10 +23,15 @@ theorem str_lit8 : str " -seed=" = [32, 45, 115, 101, 101, 100, 61] := by decide
 theorem str_lit9 : str " -ctrlflow" = [32, 45, 99, 116, 114, 108, 102, 108, 111, 119] := by decide
 
 /-- the flag tokens (without their leading space) for the build hash, in the order `appendFlags` writes them -/
-def tokens (c : Cfg) : List Bytes :=
+def baseTokens (c : Cfg) : List Bytes :=
   (if c.literals then [str "-literals"] else []) ++ (if c.tiny then [str "-tiny"] else []) ++
   (if !c.seed.isEmpty then [str "-seed=" ++ seedString c.seed] else []) ++
   (if c.ctrlflow then [str "-ctrlflow"] else [])
+
+/-- the `-X=<target>` tokens written under -literals -/
+def xTokens (c : Cfg) : List Bytes := if c.literals then c.xTargets.map (fun n => [45, 88, 61] ++ n) else []
+
+def tokens (c : Cfg) : List Bytes := baseTokens c ++ xTokens c
 
 /-- rendering of a token list followed by the GOGARBLE field, minus the very first space -/
 def render : List Bytes → Bytes → Bytes
@@ -58,9 +63,21 @@ theorem render_inj : ∀ (ts1 ts2 : List Bytes) (g1 g2 : Bytes), (∀ t ∈ ts1,
       have r := ih ts2 g1 g2 (fun x hx => h1 x (by simp [hx])) (fun x hx => h2 x (by simp [hx])) this.2
       exact ⟨by rw [this.1, r.1], r.2⟩
 
+theorem str_x : str " -X=" = [32, 45, 88, 61] := by decide
+
+theorem xflat (l : List Bytes) : (l.map fun n => str " -X=" ++ n).flatten = (l.map fun n => [45, 88, 61] ++ n).flatMap (fun t => 32 :: t) := by
+  rw [str_x]
+  induction l with
+  | nil => rfl
+  | cons a l ih =>
+    rw [List.map_cons, List.flatten_cons, List.map_cons, List.flatMap_cons, ih]
+    rfl
+
 theorem appendFlags_tokens (c : Cfg) (ht : c.testObf = []) :
     appendFlags c true = (tokens c).flatMap (fun t => 32 :: t) := by
-  unfold appendFlags tokens
+  unfold appendFlags tokens xTokens baseTokens
+  rw [List.flatMap_append]
+  simp only [xflat]
   cases c.literals <;> cases c.tiny <;> cases c.ctrlflow <;> cases h : c.seed.isEmpty <;> simp [ht, h, str_lit0, str_lit1, str_lit2, str_lit3, str_lit4, str_lit5, str_lit6, str_lit7, str_lit8, str_lit9]
 
 theorem flat_render : ∀ (ts : List Bytes) (g : Bytes),
@@ -70,9 +87,9 @@ theorem flat_render : ∀ (ts : List Bytes) (g : Bytes),
   | nil => intro g; rfl
   | cons t ts ih => intro g; simp only [List.flatMap_cons, List.append_assoc, ih, render]; simp
 
-theorem tokens_good (c : Cfg) : ∀ t ∈ tokens c, GoodTok t := by
+theorem baseTokens_good (c : Cfg) : ∀ t ∈ baseTokens c, GoodTok t := by
   intro t ht
-  unfold tokens at ht
+  unfold baseTokens at ht
   simp only [List.mem_append] at ht
   rcases ht with ((h | h) | h) | h
   · split at h <;> simp at h; subst h; exact ⟨⟨_, rfl⟩, by decide⟩
@@ -86,15 +103,63 @@ theorem tokens_good (c : Cfg) : ∀ t ∈ tokens c, GoodTok t := by
     · exact encodeStd_no_space _ hm
   · split at h <;> simp at h; subst h; exact ⟨⟨_, rfl⟩, by decide⟩
 
+/-- the -X targets contain no space (they are fields of a quoted-split -ldflags value) -/
+def XOK (c : Cfg) : Prop := ∀ n ∈ c.xTargets, (32 : UInt8) ∉ n
+
+theorem tokens_good (c : Cfg) (hx : XOK c) : ∀ t ∈ tokens c, GoodTok t := by
+  intro t ht
+  unfold tokens at ht
+  rw [List.mem_append] at ht
+  rcases ht with h | h
+  · exact baseTokens_good c t h
+  · unfold xTokens at h
+    split at h
+    · rw [List.mem_map] at h
+      obtain ⟨n, hn, e⟩ := h
+      subst e
+      refine ⟨⟨_, rfl⟩, ?_⟩
+      intro hm
+      simp at hm
+      exact hx n hn hm
+    · simp at h
+
+def isX (t : Bytes) : Bool := ([45, 88, 61] : Bytes).isPrefixOf t
+
+theorem base_not_x (c : Cfg) : ∀ t ∈ baseTokens c, isX t = false := by
+  intro t ht
+  unfold baseTokens at ht
+  simp only [List.mem_append] at ht
+  rcases ht with ((h | h) | h) | h <;> split at h <;> simp at h <;> subst h <;> simp [isX, str_lit0, str_lit1, str_lit2, str_lit3, List.isPrefixOf]
+
+theorem x_is_x (c : Cfg) : ∀ t ∈ xTokens c, isX t = true := by
+  intro t ht
+  unfold xTokens at ht
+  split at ht
+  · rw [List.mem_map] at ht; obtain ⟨n, _, e⟩ := ht; subst e; simp [isX, List.isPrefixOf]
+  · simp at ht
+
+theorem filter_split (c : Cfg) : (tokens c).filter (fun t => !isX t) = baseTokens c ∧ (tokens c).filter isX = xTokens c := by
+  unfold tokens
+  rw [List.filter_append, List.filter_append]
+  have h1 : (baseTokens c).filter (fun t => !isX t) = baseTokens c := by
+    rw [List.filter_eq_self]; intro t ht; simp [base_not_x c t ht]
+  have h2 : (xTokens c).filter (fun t => !isX t) = [] := by
+    rw [List.filter_eq_nil_iff]; intro t ht; simp [x_is_x c t ht]
+  have h3 : (baseTokens c).filter isX = [] := by
+    rw [List.filter_eq_nil_iff]; intro t ht; simp [base_not_x c t ht]
+  have h4 : (xTokens c).filter isX = xTokens c := by
+    rw [List.filter_eq_self]; intro t ht; exact x_is_x c t ht
+  simp [h1, h2, h3, h4]
+
 /-- the decoder: which fields a token list denotes -/
 def hasTok (ts : List Bytes) (t : Bytes) : Bool := ts.contains t
 def seedTok (ts : List Bytes) : Option Bytes := ts.find? (fun t => t.getD 1 0 == 115)
 
 theorem tokens_decode (c : Cfg) :
-    hasTok (tokens c) (str "-literals") = c.literals ∧ hasTok (tokens c) (str "-tiny") = c.tiny ∧
-    hasTok (tokens c) (str "-ctrlflow") = c.ctrlflow ∧
-    seedTok (tokens c) = (if c.seed.isEmpty then none else some (str "-seed=" ++ seedString c.seed)) := by
-  unfold tokens hasTok seedTok
+    hasTok (baseTokens c) (str "-literals") = c.literals ∧ hasTok (baseTokens c) (str "-tiny") = c.tiny ∧
+    hasTok (baseTokens c) (str "-ctrlflow") = c.ctrlflow ∧
+    seedTok (baseTokens c) = (if c.seed.isEmpty then none else some (str "-seed=" ++ seedString c.seed)) := by
+  unfold baseTokens hasTok seedTok
   have e1 : (str "-seed=" ++ seedString c.seed == str "-literals") = false := by
     simp [str_lit0, str_lit1, str_lit2, str_lit3, str_lit4, str_lit5, str_lit6, str_lit7, str_lit8, str_lit9]
   have e2 : (str "-seed=" ++ seedString c.seed == str "-tiny") = false := by
